@@ -72,7 +72,7 @@ def generate(rng, tier):
                 for ign, always in ((False, False), (True, False), (False, True), (True, True)) if kind == "b" else ((False, False),):
                     for sc in scripts(kind, reset, ctx):
                         yield mk(kind, reset, ctx, ign, always, False, sc)
-    n = 5000 if tier == "quick" else 60000
+    n = 3000 if tier == "quick" else 60000
     for i in range(n):
         kind = "s" if rng.random() < 0.3 else "b"
         reset = rng.choice(RESETS if rng.random() < 0.8 else [None])
